@@ -43,7 +43,7 @@ Print Assumptions C13_channel_keys_restored.
    Wallet.from_storage does (keys sorted, every account flagged encrypted, no password in memory), then unlocked
    with the password of the save: True, and the same seeds, private keys, public keys as before the save. *)
 Theorem C13_disk_roundtrip : forall P, DE P -> B64 P -> B64nil P ->
-  forall w (pw : bytes) rnd, wf_wallet P w -> pw <> [] -> Forall len16 rnd ->
+  forall w (pw : bytes) rnd, wf_wallet P w -> Forall len16 rnd ->
   exists w1 w2,
     wallet_of_dict P (fst (wallet_to_dict P (Some pw) rnd w)) = Some w1
     /\ Forall (fun b => a_encrypted b = true /\ a_priv b = None) (w_accounts w1)
@@ -54,7 +54,8 @@ Theorem C13_disk_roundtrip : forall P, DE P -> B64 P -> B64nil P ->
 Proof. exact disk_roundtrip. Qed.
 Print Assumptions C13_disk_roundtrip.
 
-(* Wallet.unlock answers False -- whichever account refused the password -- then the wallet is still locked and
+(* Wallet.unlock answers False -- whichever account refused the password, or because the wallet is already unlocked and
+   has another password (6c52396) -- then the wallet is as locked as it was (locked stays locked) and
    password, name, preferences and EVERY account (all fields but the init vectors remembered by the refusing
    account) are what they were: accounts that did open have been encrypted again, bit for bit.
    Premise [sealed_if_opened]: an account that this password opens was sealed under it by Account.encrypt (nothing is
@@ -66,7 +67,7 @@ Theorem C13_failed_unlock_unchanged_partial : forall P, DE P -> B64 P -> B64nil 
   forall w pw,
   Forall (sealed_if_opened P pw) (w_accounts w) ->
   fst (unlock P pw w) = UFalse ->
-  is_locked (snd (unlock P pw w)) = true
+  is_locked (snd (unlock P pw w)) = is_locked w
   /\ w_pw (snd (unlock P pw w)) = w_pw w
   /\ w_name (snd (unlock P pw w)) = w_name w /\ w_prefs (snd (unlock P pw w)) = w_prefs w
   /\ map strip_iv (w_accounts (snd (unlock P pw w))) = map strip_iv (w_accounts w).
@@ -88,6 +89,14 @@ Theorem C13_failed_unlock_first_account_unchanged : forall P w pw pre a post,
 Proof. exact failed_unlock_unchanged_first. Qed.
 Print Assumptions C13_failed_unlock_first_account_unchanged.
 
+(* An already unlocked wallet that has a password: unlock accepts exactly that password and changes nothing either
+   way -- a typo can no longer replace the password the next save encrypts with (6c52396). *)
+Theorem C13_unlock_of_unlocked_wallet_keeps_password : forall P w pw q,
+  is_locked w = false -> w_pw w = Some q ->
+  unlock P pw w = (if bytes_eqb pw q then UTrue else UFalse, w).
+Proof. exact unlock_of_unlocked. Qed.
+Print Assumptions C13_unlock_of_unlocked_wallet_keeps_password.
+
 (* REFUTED claims about the code before the two repairs (cfbbf5f, a1c8e7f), kept machine-checked:
    the old Wallet.unlock left the accounts before the refusing one decrypted ... *)
 Theorem C13_old_unlock_left_earlier_accounts_decrypted_refuted : forall P pw pre a post pre',
@@ -108,20 +117,20 @@ Theorem C13_old_seed_check_refused_correct_password_refuted : forall P, DE P -> 
 Proof. exact old_seed_check_refused_correct_password. Qed.
 Print Assumptions C13_old_seed_check_refused_correct_password_refuted.
 
-(* With the encrypt-on-disk preference on and a non-blank password set, the dict Wallet.save hands to
-   storage.write is [public_image] of name, preferences, the init-vector supply and, per account, its public part
-   (a record with no seed / private-key field; it does hold the channel keys, which are written as they are) and
-   the two functions iv |-> E key iv seed, iv |-> E key iv private_key_string: seed and private key reach the file
-   only as outputs of E.  Holds for every P, no hypothesis. *)
+(* With the encrypt-on-disk preference on and a password set -- ANY string, the empty one included (55a4e60) -- the dict
+   Wallet.save hands to storage.write is [public_image] of name, preferences, the init-vector supply and, per account,
+   its public part (a record with no seed / private-key field; it does hold the channel keys, which are written as they
+   are) and the two functions iv |-> E key iv seed, iv |-> E key iv private_key_string: seed and private key reach the
+   file only as outputs of E.  Holds for every P, no hypothesis. *)
 Theorem C13_no_plaintext_on_disk : forall P w pw ts rnd,
-  pref_on w = true -> w_pw w = Some pw -> pw <> [] ->
+  pref_on w = true -> w_pw w = Some pw ->
   fst (save_dict P ts rnd w) = public_image P (w_name w) (w_prefs w) rnd (map (seal P pw) (w_accounts w)).
 Proof. exact no_plaintext_on_disk. Qed.
 Print Assumptions C13_no_plaintext_on_disk.
 
 (* hence: same public parts and same ciphertexts => byte-identical files, whatever the seeds and keys are *)
 Theorem C13_file_depends_on_ciphertexts_only : forall P w1 w2 pw ts rnd,
-  pref_on w1 = true -> pref_on w2 = true -> w_pw w1 = Some pw -> w_pw w2 = Some pw -> pw <> [] ->
+  pref_on w1 = true -> pref_on w2 = true -> w_pw w1 = Some pw -> w_pw w2 = Some pw ->
   w_name w1 = w_name w2 -> w_prefs w1 = w_prefs w2 ->
   Forall2 same_sealed (map (seal P pw) (w_accounts w1)) (map (seal P pw) (w_accounts w2)) ->
   render_file P (fst (save_dict P ts rnd w1)) = render_file P (fst (save_dict P ts rnd w2)).
@@ -176,12 +185,12 @@ Theorem C13_start_enables_encryption : forall P path umask ts rnd pid st st' w0,
 Proof. exact start_enables_encryption. Qed.
 Print Assumptions C13_start_enables_encryption.
 
-(* ... so that after unlocking it with a non-blank password every later save writes the sealed image
+(* ... so that after unlocking it with its password every later save writes the sealed image
    (seed and private key only as outputs of E), exactly as for a wallet encrypted by Wallet.encrypt *)
 Theorem C13_start_unlock_save_sealed : forall P path umask ts rnd pid st st' w0 (pw : bytes) ts' rnd',
   reload P (m_img st) = Some w0 -> is_locked w0 = true -> pref_is_none w0 = true ->
   step P path umask (MStart ts rnd pid) st = (OTrue, st') ->
-  fst (unlock P pw (m_w st')) = UTrue -> pw <> [] ->
+  fst (unlock P pw (m_w st')) = UTrue ->
   let w2 := snd (unlock P pw (m_w st')) in
   fst (save_dict P ts' rnd' w2) = public_image P (w_name w2) (w_prefs w2) rnd' (map (seal P pw) (w_accounts w2)).
 Proof. exact start_unlock_save_sealed. Qed.
